@@ -57,7 +57,7 @@ package ro
 //@   ensures [one-critical-section|C02,C10,C11,C13] count(lock.mu) == 1 && heldat(mu, sub.ANY) && heldat(mu, loop.ANY)
 //@   alias sub=NewSubscriber()
 //@   track call.NewSubscriber observers.* NewSubscriber().*
-//@   ensures [wraps-then-registers-when-open|C01,C03,C10] atlock(status) == 0 ==> trace(call.NewSubscriber(destination), observers.Store(_, res(call.NewSubscriber)), sub.Add(_))
+//@   ensures [wraps-then-registers-when-open|C01,C03,C10,C14] atlock(status) == 0 ==> trace(call.NewSubscriber(destination), observers.Store(_, res(call.NewSubscriber)), sub.Add(_))
 //@   ensures [late-subscriber-gets-stored-error|C10] atlock(status) == 1 ==> trace(call.NewSubscriber(destination), sub.ErrorWithContext(atlock(err).A, atlock(err).B))
 //@   ensures [late-subscriber-gets-completion|C10] atlock(status) == 2 ==> trace(call.NewSubscriber(destination), sub.CompleteWithContext(subscriberCtx))
 //@   ensures [registration-under-lock|C10,C11,C13] heldat(mu, observers.Store)
@@ -202,7 +202,7 @@ package ro
 //@   ensures [one-critical-section|C02,C10,C11,C13] count(lock.mu) == 1 && heldat(mu, sub.ANY) && heldat(mu, loop.ANY)
 //@   alias sub=NewSubscriber()
 //@   track call.NewSubscriber observers.* NewSubscriber().*
-//@   ensures [wraps-then-registers-when-open|C01,C03,C10] atlock(status) == 0 ==> trace(call.NewSubscriber(destination), observers.Store(_, res(call.NewSubscriber)), sub.Add(_))
+//@   ensures [wraps-then-registers-when-open|C01,C03,C10,C14] atlock(status) == 0 ==> trace(call.NewSubscriber(destination), observers.Store(_, res(call.NewSubscriber)), sub.Add(_))
 //@   ensures [late-subscriber-gets-stored-error|C10] atlock(status) == 1 ==> trace(call.NewSubscriber(destination), sub.ErrorWithContext(atlock(err).A, atlock(err).B))
 //@   ensures [late-subscriber-gets-final-value-then-completion|C10] atlock(status) == 2 && atlock(hasValue) ==> trace(call.NewSubscriber(destination), sub.NextWithContext(atlock(value).A, atlock(value).B), sub.CompleteWithContext(subscriberCtx))
 //@   ensures [late-subscriber-of-empty-gets-completion|C10] atlock(status) == 2 && !atlock(hasValue) ==> trace(call.NewSubscriber(destination), sub.CompleteWithContext(subscriberCtx))
